@@ -66,6 +66,16 @@ Mn == Term("mvax", 32, m222, <<-3, -1, -1, -2>>, <<>>)     \* two axes, negative
 Dq == Term("diagq", 33, v2, <<16777216, 1, -3>>, <<>>)   \* values 2^-24 and -3 * 2^-24: tiny non-zero entries
 Dh == Term("diagq", 34, v3, <<2, 1, 2000000, 3>>, <<>>)         \* values 1/2, 10^6, 3/2
 
+\* ---- pytree-structured spaces: L22 = [v2, v2] (also the structure of block containers over two v2 blocks)
+OpL(i) == Leaf(<<i>>, "op")
+List2 == ListS(<<OpL(1), OpL(2)>>)
+Dl == Term("diag", 35, L22, <<5, -2>>, <<>>)                    \* one values array applied to both leaves
+Prl == Term("index", 36, L22, <<0, 1, -2, 1>>, <<>>)            \* [v2, v2] -> [v3, v3], repeats and a negative alias
+BDl == Term("bdiag", 37, List2, <<>>, <<A, D>>)                 \* L22 -> L22
+BDi == Term("bdiag", 38, List2, <<>>, <<InvOf(A), DInvOf(D)>>)  \* its block-wise inverse, built independently
+BRl == Term("brow", 39, List2, <<>>, <<A, B>>)                  \* L22 -> v2
+BCl == Term("bcol", 40, List2, <<>>, <<B, D>>)                  \* v2 -> L22
+
 Inv(t) == InvOf(t)
 
 \* named atoms: name -> term.  The names are only labels for humans and evidence.
@@ -81,7 +91,8 @@ AtomTable ==
     PlT |-> TOf(Pl),
     I2v |-> Id(v2), I3v |-> Id(v3), Iqu |-> Id(QU2), Im |-> Id(m23),
     H2 |-> Hom(2, 1, v2), Hh |-> Hom(-1, 2, v2), H3 |-> Hom(3, 1, v3), Hq |-> Hom(-3, 1, QU2), Hm |-> Hom(1, 2, m23),
-    H6 |-> Hom(2, 1, v6), D0 |-> D0, D0I |-> DInvOf(D0), Mc |-> Mc, McT |-> Transpose(Mc), Mn |-> Mn, Dq |-> Dq, DqI |-> DInvOf(Dq), Dh |-> Dh, D3I |-> DInvOf(D3), AB |-> AddT(<<A, B>>) ]
+    H6 |-> Hom(2, 1, v6), D0 |-> D0, D0I |-> DInvOf(D0), Dl |-> Dl, DlI |-> DInvOf(Dl), Prl |-> Prl, PrlT |-> TOf(Prl), BDl |-> BDl, BDi |-> BDi, BRl |-> BRl, BCl |-> BCl,
+    Il |-> Id(L22), Hl |-> Hom(-2, 1, L22), Mc |-> Mc, McT |-> Transpose(Mc), Mn |-> Mn, Dq |-> Dq, DqI |-> DInvOf(Dq), Dh |-> Dh, D3I |-> DInvOf(D3), AB |-> AddT(<<A, B>>) ]
 
 AllAtomNames == DOMAIN AtomTable
 =============================================================================
